@@ -26,6 +26,13 @@ var Corpus = map[string][]string{
 		"--- \n",
 		"a: 1\na: 2\n",
 		"[a, b\n",
+		// anchored nodes that contain themselves (valid YAML: the anchor is defined before its content)
+		"a: &x {<<: *x}\nb: 1\n",
+		"a: &x [*x, 1]\nb: {k: *x}\n",
+		"&x {k: *x, j: [1, 2]}\n",
+		"a: &x {b: {<<: *x}, c: 1}\nd: *x\n",
+		"a: &x {<<: [*x]}\n",
+		"base: &b {k: 1, self: *b}\nuse: {<<: *b, own: 2}\nlist: [*b, *b]\n",
 	},
 	"json": {
 		`{"a":1,"b":[1,2,3],"c":{"x":"y"},"d":null,"e":true,"f":1.5e10}`,
